@@ -60,7 +60,9 @@ def build(coll, c, geom_kind, g):
     clip1 = b.clip(rec1 if g["clip1_other_rec"] else rec0, graph.Fixed(True), 1.0, 3.0)
     se0 = b.sound_event(rec0, c, geom_kind)
     se1 = b.sound_event(rec1 if g["se1_other_rec"] else rec0, graph.Fixed(True), (geom_kind + 3) % 9)
-    seq_parent = b.sequence([se0], c)
+    # three levels of nesting when both choices are set (a grandparent reached only through its grandchild)
+    seq_grand = b.sequence([se0], graph.Fixed(False)) if (g["parent"] and g["seq_two"]) else None
+    seq_parent = b.sequence([se0], c, parent=seq_grand)
     seq_child = b.sequence([se1, se0] if g["seq_two"] else [se1], graph.Fixed(True),
                            parent=seq_parent if g["parent"] else None)
     if coll in ("annotation_set", "annotation_project", "evaluation_set", "evaluation"):
@@ -243,7 +245,7 @@ INFO = dict(
         "to_soundevent)",
     ],
     bounds="object graphs of <= 2 recordings, 2-3 clips, 2 sound events (one may belong to the other recording), a "
-    "parent and a child sequence, <= 2 annotations/predictions per clip, <= 3 matches, <= 2 clip evaluations, tag "
+    "parent and a child sequence (and a grandparent), <= 2 annotations/predictions per clip, <= 3 matches, <= 2 clip evaluations, tag "
     "pool of 15, <= 2 features per list with distinct labels; per obligation either 4 structure choices or a window "
     "of 8 consecutive optional-presence flags are symbolic (all 2^k combinations), the remaining flags fixed all-"
     "present or all-absent; up to 4 numeric leaves symbolic in [0,1] (exact reals) incl. 0 and 1; one and two "
